@@ -275,6 +275,23 @@ func checkC20(c CaseC20) error {
 	if k != len(sts) {
 		return vt.Failf("stop times table has %d rows, journal has %d stop times", len(sts), k)
 	}
+	// an export that the caller keeps must not change when other journals are exported later
+	keptTrips, keptStops := append([]byte(nil), exp.TripsCsv...), append([]byte(nil), exp.StopTimesCsv...)
+	other := CaseC20{Zone: c.Zone}
+	for i := len(c.Trips) - 1; i >= 0; i-- {
+		t := c.Trips[i]
+		t.UID, t.VehicleID = "other-"+t.UID, "x"
+		other.Trips = append(other.Trips, t)
+	}
+	other.Trips = append(other.Trips, C20Trip{UID: "extra", TripID: "extra-trip", StopTimes: []C20StopTime{{StopID: "Z"}, {StopID: "Y"}}})
+	for i := 0; i < 3; i++ {
+		if _, err := c20Build(other).ExportToCsv(); err != nil {
+			return vt.Failf("second export failed: %v", err)
+		}
+	}
+	if !bytes.Equal(exp.TripsCsv, keptTrips) || !bytes.Equal(exp.StopTimesCsv, keptStops) {
+		return vt.FailSig("export-overwritten", "the tables returned by ExportToCsv changed after other journals were exported:\n before %q\n after  %q", keptTrips, exp.TripsCsv)
+	}
 	return nil
 }
 
